@@ -110,6 +110,60 @@ theorem seqOrd_agrees (a b : Nat) (ha : a < 65536) (hb : b < 65536)
   simp only [decide_eq_true_eq]
   exact ⟨h.1, h.2.2⟩
 
+/-- **Distances add up (triangle equality)**: for three 16-bit numbers whose pairwise true distances stay within
+half the tolerance budget, `a − c = (a − b) + (b − c)`. Consumers compare three numbers at once (`ack_nr`,
+`snd_una`, `last_sent_seq_nr`; the receive offset against `ack_nr` and the queue capacity): this is what lets the
+invariants of `C10Inv` be carried as plain integers. All 2^48 triples at once. -/
+theorem seqOffset_add (a b c tol : Nat) (ha : a < 65536) (hb : b < 65536) (hc : c < 65536)
+    (htol : tol ≤ 32767) (h1 : 2 * (modDist a b).natAbs ≤ tol) (h2 : 2 * (modDist b c).natAbs ≤ tol) :
+    seqOffset a c tol = seqOffset a b tol + seqOffset b c tol := by
+  have hac : (modDist a c).natAbs ≤ tol ∧ modDist a c = modDist a b + modDist b c := by
+    unfold modDist wsub at *; simp only at *
+    (repeat' split at h1) <;> (repeat' split at h2) <;> (repeat' split) <;> omega
+  rw [seqOffset_eq_modDist a c tol ha hc htol hac.1, seqOffset_eq_modDist a b tol ha hb htol (by omega),
+      seqOffset_eq_modDist b c tol hb hc htol (by omega), hac.2]
+
+/-- **The crate's `Ord for SeqNr` is transitive inside a window**: `a < b` and `b < c` give `a < c` whenever both
+distances are at most half the crate tolerance (16383 numbers: above the default receive window of 1985 packets,
+and `a < c` is then itself a distance within the tolerance). Outside a window a cyclic order cannot be transitive
+(`seqLt_not_transitive_across_half`). -/
+theorem seqLt_trans (a b c : Nat) (ha : a < 65536) (hb : b < 65536) (hc : c < 65536)
+    (h1 : 2 * (modDist a b).natAbs ≤ WRAP_TOLERANCE) (h2 : 2 * (modDist b c).natAbs ≤ WRAP_TOLERANCE)
+    (hab : seqLt a b = true) (hbc : seqLt b c = true) : seqLt a c = true := by
+  have h := seqOffset_add a b c WRAP_TOLERANCE ha hb hc default_windows_within_tolerance.1 h1 h2
+  unfold seqLt seqSub at *
+  simp only [decide_eq_true_eq] at *
+  omega
+
+/-- **Trichotomy inside a window**: exactly one of `a < b`, `a = b`, `a > b` holds, and `a < b ↔ b > a`. Together
+with `seqLt_trans` the crate's comparison is a strict total order on every window-sized set of numbers. -/
+theorem seqOrd_trichotomy (a b : Nat) (ha : a < 65536) (hb : b < 65536)
+    (hd : (modDist a b).natAbs ≤ WRAP_TOLERANCE) :
+    ((seqLt a b = true ∧ a ≠ b ∧ seqGt a b = false) ∨ (seqLt a b = false ∧ a = b ∧ seqGt a b = false) ∨
+     (seqLt a b = false ∧ a ≠ b ∧ seqGt a b = true)) ∧ (seqLt a b = seqGt b a) := by
+  have h := order_agrees a b _ ha hb default_windows_within_tolerance.1 hd
+  have hs := seqOffset_antisymm a b _ ha hb default_windows_within_tolerance.1 hd
+  unfold seqLt seqGt seqSub
+  have e : seqOffset a b WRAP_TOLERANCE = 0 ↔ a = b := h.2.1
+  refine ⟨?_, ?_⟩
+  · by_cases hlt : seqOffset a b WRAP_TOLERANCE < 0
+    · left; refine ⟨by simpa using hlt, ?_, by simp; omega⟩
+      intro hab; have := e.mpr hab; omega
+    · by_cases heq : seqOffset a b WRAP_TOLERANCE = 0
+      · right; left; exact ⟨by simp; omega, e.mp heq, by simp; omega⟩
+      · right; right; refine ⟨by simp; omega, ?_, by simp; omega⟩
+        intro hab; exact heq (e.mpr hab)
+  · rw [hs]; simp only [decide_eq_decide]; omega
+
+/-- A cyclic 16-bit order cannot be transitive across half the ring: the window hypothesis of `seqLt_trans` is
+needed, not an artefact (witness under the crate's tolerance). -/
+theorem seqLt_not_transitive_across_half :
+    seqLt 0 20000 = true ∧ seqLt 20000 40000 = true ∧ seqLt 40000 0 = true := by decide
+
+-- Non-vacuity of the window hypotheses on a wrap-crossing triple.
+example : 2 * (modDist 65530 3).natAbs ≤ WRAP_TOLERANCE ∧ 2 * (modDist 3 40).natAbs ≤ WRAP_TOLERANCE ∧
+    seqLt 65530 3 = true ∧ seqLt 3 40 = true ∧ seqLt 65530 40 = true := by decide
+
 -- Non-vacuity: hypotheses are satisfiable on a wrap-crossing pair.
 example : seqOffset 3 65530 1024 = 9 ∧ modDist 3 65530 = 9 ∧ (modDist 3 65530).natAbs ≤ 1024 := by decide
 example : seqOffset (wadd 65530 10) (wadd 65520 10) 1024 = seqOffset 65530 65520 1024 := by decide
